@@ -12,6 +12,10 @@ SMOKE = [
     ('Tokenizer', 'MC_Tokenizer_smoke.cfg', None),
     ('Trie', 'MC_Trie_smoke.cfg', None),
     ('MC_ModelCache', 'MC_ModelCache_prefixcode.cfg', 'ReturnedForKey'),
+    ('MergeMech', 'MC_Merge_sweep.cfg', None),
+    ('MergeMech', 'MC_Merge_tokens.cfg', None),
+    ('MergeMech', 'MC_Merge_addto_noenv.cfg', 'AddDisjoint'),
+    ('Purity', 'MC_Purity_threadctx.cfg', 'ParsePure'),
 ]
 
 
